@@ -1634,6 +1634,10 @@ def parse_equation_ellipses(eq, shapes, tuples=False):
         # no ellipsis, just check for output
         if rhs:
             output = rhs[0]
+            if check_ellipsis(output):
+                # like numpy, allow an ellipsis in the output only, which
+                # then stands for zero broadcast dimensions
+                output = output.replace("...", "")
         else:
             output = find_output_str(lhs)
 
